@@ -763,18 +763,35 @@ func (x *Exec) specCall(e *ast.CallExpr, sc *SpecScope, st *State) *Value {
 	case "asptr":
 		// asptr(e, T): view an interface/reference value as *T (T a struct type of the contract's package)
 		v := arg(0)
-		tid, ok := e.Args[1].(*ast.Ident)
-		if !ok {
+		var tn types.Object
+		tname := ""
+		if bl, isStr := e.Args[1].(*ast.BasicLit); isStr {
+			// asptr(e, "pkg/path.Type")
+			q, _ := strconv.Unquote(bl.Value)
+			tname = q
+			if i := strings.LastIndex(q, "."); i > 0 {
+				for _, p := range x.eng.pkgs {
+					if relPkg(p.PkgPath) == q[:i] {
+						tn = p.Types.Scope().Lookup(q[i+1:])
+					}
+				}
+			}
+		} else if tid, ok := e.Args[1].(*ast.Ident); ok {
+			tname = tid.Name
+			for s := sc; s != nil && tn == nil; s = s.parent {
+				if s.pkg != nil {
+					tn = s.pkg.Scope().Lookup(tid.Name)
+				}
+			}
+		} else {
 			panic(engErr("asptr(e, T): T must be a type name"))
 		}
-		var tn types.Object
-		for s := sc; s != nil && tn == nil; s = s.parent {
-			if s.pkg != nil {
-				tn = s.pkg.Scope().Lookup(tid.Name)
-			}
-		}
+		tid := &ast.Ident{Name: tname}
 		if tn == nil {
 			panic(engErr("asptr: unknown type %s", tid.Name))
+		}
+		if v.P != nil {
+			return &Value{T: types.NewPointer(tn.Type()), P: v.P}
 		}
 		return &Value{T: types.NewPointer(tn.Type()), P: &Pointer{Base: v.term()}}
 	case "byteat":
